@@ -34,7 +34,7 @@ inline void fill_tagged(T* v, size_t n, size_t tag0, uint64_t seed)
         if (sizeof(T) == 1)
             val = (tag * 37 + (seed & 0xff)) & 0xff;
         else
-            val = (pmix(seed + i * 77) << 12) | (tag + 1);
+            val = (pmix(seed + tag * 77) << 12) | (tag + 1); // high bits differ between operands too (tag = tag0 + i)
         std::memcpy(&v[i], &val, sizeof(T));
     }
 }
